@@ -37,6 +37,10 @@ type c05Run struct {
 	crashes  int
 	hangs    int
 	spawns   int
+	// allocation oracle (c05_alloc.go): largest counted TotalAlloc delta per stream and the request it belongs to
+	maxAlloc     map[string]uint64
+	maxAllocWhat map[string]string
+	lastAlloc    uint64
 }
 
 type c05Sent struct {
@@ -147,11 +151,18 @@ func (c *c05Run) send(stream string, routeName, shape string, rq c05Request, mod
 		out = fmt.Sprintf("s%d", o.Status)
 	}
 	c.r.Count("outcome:" + stream + ":" + o.Class)
+	c.lastAlloc = 0
 	if dead {
 		c.batch = nil
 		if err := c.respawn(); err != nil {
 			return out, err
 		}
+	} else {
+		a, err := c.judgeAlloc(stream, routeName, shape, rq, sent, o, model)
+		if err != nil {
+			return out, err
+		}
+		c.lastAlloc = a
 	}
 	return out, nil
 }
@@ -475,12 +486,15 @@ func c05(r *h.Result, rng *h.Rng, tier string, replay string) error {
 		return c05Replay(r, replay, deadline)
 	}
 	nStruct, nRaw, batchSize, bombs := 1100, 4000, 40, false
+	nPre, nDecLen := 300, 3000
 	oddPct := 65
 	switch tier {
 	case "thorough":
 		nStruct, nRaw, bombs = 22000, 100000, true
+		nPre, nDecLen = 6000, 100000
 	case "search":
 		nStruct, nRaw, bombs = 11000, 30000, true
+		nPre, nDecLen = 3000, 20000
 		oddPct = 90
 	}
 	// staleness of the hand-made fault placement (Gen.BodyHashes vs the recorded hashes)
@@ -510,6 +524,7 @@ func c05(r *h.Result, rng *h.Rng, tier string, replay string) error {
 	r.Notes = append(r.Notes, "PARTIAL: the theorems are about the model (fault placement, goroutine of each site, tamePanic protocol, waiting logic); scheduler, memory exhaustion, loops inside third-party parsers and goroutine leaks of the real runtime are only explored by this child-process run (support, not an obligation)")
 	r.Rule = "structured: per route documents with 65% ill-shaped variants (dropped field, changed JSON kind, emptied array, wrong id length, absent optional message, truncated, oversize, bad encoding), status compared with the model; non-trivial = not valid by construction; distinct by (route, shape, status). raw: byte mutations of route bodies under gzip/snappy/multipart/ndjson/query-parameter changes, liveness only (fuzzing)"
 
+	r.Rule += "; " + c05AllocRule
 	c := &c05Run{r: r, deadline: deadline, pushRng: rng.Fork()}
 	if err := c.respawn(); err != nil {
 		return err
@@ -586,6 +601,19 @@ func c05(r *h.Result, rng *h.Rng, tier string, replay string) error {
 		}
 	}
 
+	// ---- pre-request chain (c05_pre.go)
+	if err := c05DecLenStream(r, rng.Fork(), nDecLen); err != nil {
+		return err
+	}
+	if err := c.preStream(rng.Fork(), nPre, bombs, batchSize); err != nil {
+		return err
+	}
+
+	// ---- declared-size probes (c05_probe.go)
+	if err := c.probeStream(batchSize); err != nil {
+		return err
+	}
+
 	// ---- raw stream (fuzzing)
 	r.Stream("raw (FUZZING, liveness only): byte mutations per content type and encoding — gzip, snappy block and framing, multipart, ndjson, query parameters; decompression bombs at the limits in the thorough tier")
 	rrng := rng.Fork()
@@ -616,5 +644,6 @@ func c05(r *h.Result, rng *h.Rng, tier string, replay string) error {
 		r.Violate("C05/child-exit", fmt.Sprintf("the child process exited with status %d", code), map[string]any{"exit": code})
 	}
 	r.CountN("child-spawns", c.spawns)
+	c.allocNotes()
 	return nil
 }
